@@ -69,9 +69,8 @@ let snapshot s =
 
 let () =
   let ic = if Array.length Sys.argv > 1 then open_in Sys.argv.(1) else stdin in
-  let st = ref (init_db Z0 N0) in
-  let acks = ref [] in
-  let used = Hashtbl.create 16 in
+  let st = ref (init_astate Z0 N0 (n_of_i64 1L)) in
+  let nacks = ref 0 in
   let stopped = ref false in
   (try while true do
     let line = String.trim (input_line ic) in
@@ -80,7 +79,7 @@ let () =
       match f.(0) with
       | "case" ->
         Printf.printf "case %s\n" f.(1);
-        st := init_db (z_of_i64 (Int64.of_string f.(2))) (nof f.(3)); acks := []; Hashtbl.reset used; stopped := false
+        st := init_astate (z_of_i64 (Int64.of_string f.(2))) (nof f.(3)) (n_of_i64 1L); nacks := 0; stopped := false
       | "end" -> print_endline "end"
       | a when !stopped -> ()
       | a ->
@@ -88,26 +87,20 @@ let () =
         let act = match a with
           | "req" ->
             let c = make_cmd (f.(2) = "L") (nof f.(3)) (nof f.(4)) (nof f.(5)) (nof f.(6)) (nof f.(7)) (nof f.(8)) (nof f.(9)) (nof f.(10)) (nof f.(11)) (nof f.(12)) (bytes_of_hex f.(13)) in
-            Some (AReq (nof f.(1), c))
-          | "adv" -> Some (AAdvance (z_of_i64 (Int64.of_string f.(1))))
-          | "sweept" -> Some ASweepT
-          | "sweepe" -> Some ASweepE
+            Some (AAct (AReq (nof f.(1), c)))
+          | "adv" -> Some (AAct (AAdvance (z_of_i64 (Int64.of_string f.(1)))))
+          | "sweept" -> Some (AAct ASweepT)
+          | "sweepe" -> Some (AAct ASweepE)
           | "ack" ->
             let i = int_of_string f.(1) in
-            let l = List.rev !acks in
-            if i < List.length l && not (Hashtbl.mem used i) then begin
-              Hashtbl.add used i ();
-              let r = List.nth l i in
-              match aget (!st).store r with
-              | None -> print_endline "ev ack-stale"; None
-              | Some _ -> Some (AAck (r, f.(2) = "1"))
-            end else (print_endline "ev noack"; None)
-          | "role" -> Some (ARole (f.(1) = "1"))
+            if i < !nacks then Some (AAckEvt (n_of_i64 (Int64.of_int i), f.(2) = "1")) else (print_endline "ev noack"; None)
+          | "ackcfg" -> st := { !st with a_cfg = nof f.(1) }; None
+          | "role" -> Some (AAct (ARole (f.(1) = "1")))
           | _ -> failwith ("unknown action " ^ a) in
         (match act with
-         | None -> snapshot !st
+         | None -> snapshot (!st).a_db
          | Some act ->
-           let (s', evs) = step !st act in
+           let (s', evs) = astep !st act in
            st := s';
            let replies = List.filter (function EReply _ | EPanic _ -> true | _ -> false) evs in
            let aofs = List.filter (function EAof _ -> true | _ -> false) evs in
@@ -121,12 +114,12 @@ let () =
              List.iter (function
                | EAof a ->
                  let ackidx = match a.a_ref with
-                   | Some r when a.a_lock -> acks := r :: !acks; List.length !acks - 1
+                   | Some r when a.a_lock -> incr nacks; !nacks - 1
                    | _ -> -1 in
                  Printf.printf "ev aof %d %s %s %s %s %s %s %s %s %s %s %s %d\n" (b2i a.a_lock) (sn a.a_flag) (sn a.a_lockid) (sn a.a_key) (sn a.a_aofflag)
                    (sz a.a_ctime) (sn a.a_start) (sn a.a_eflag) (sn a.a_etime) (sn a.a_count) (sn a.a_rcount) (shex a.a_data) ackidx
                | _ -> ()) aofs;
-             snapshot !st
+             snapshot (!st).a_db
            end)
     end
   done with End_of_file -> ());
